@@ -2,6 +2,7 @@ import JunoModel.C01.ProofsStateL
 import JunoModel.C01.ProofsChain
 import JunoModel.C01.ProofsAgree
 import JunoModel.C01.ModelMigrate
+import JunoModel.C01.ProofsLegacyState
 /-!
 Helper lemmas for C01, part 12 (round 5): the state update over contract records with a CACHED storage root and
 a separate storage-trie store (`ModelMigrate.lean`) simulates the update of `ModelState.lean` (record = class,
@@ -900,6 +901,235 @@ theorem upgrade_rootless (legacy : St) (native : StM) (a : Path) (r : RecM)
   | some l =>
     simp only [e, Option.map, Option.some.injEq] at h
     rw [← h]; rfl
+
+/-! ### the migrator reading the buckets of the TRANSCRIBED legacy state -/
+
+theorem migrateFieldsGo_lookup (cls nonce : AList HTerm) : ∀ (l : AList HTerm), (∀ e ∈ l, alookup cls e.1 ≠ none) →
+    ∀ (recs : AList RecM) (a : Path),
+    alookup (migrateFieldsGo cls nonce l recs) a =
+      match alookup recs a with
+      | some r => some r
+      | none => if (alookup l a).isSome then
+          some (writeContract ((alookup cls a).getD (.felt 0)) ((alookup nonce a).getD (.felt 0))) else none := by
+  intro l
+  induction l with
+  | nil => intro _ recs a; simp only [migrateFieldsGo, alookup]; cases alookup recs a <;> simp
+  | cons e rest ih0 =>
+    intro hfull recs a
+    have ih := ih0 (fun e he => hfull e (List.mem_cons_of_mem _ he))
+    have hhead := hfull e (List.mem_cons_self ..)
+    obtain ⟨addr, c⟩ := e
+    simp only [migrateFieldsGo]
+    by_cases hacc : (alookup (migrateFieldsGo cls nonce rest recs) addr).isSome = true
+    · simp only [hacc, if_true]
+      rw [ih recs a]
+      cases hr : alookup recs a with
+      | some _ => rfl
+      | none =>
+        simp only [alookup]
+        by_cases haddr : addr = a
+        · subst haddr
+          rw [ih recs addr, hr] at hacc
+          simp only [if_true, Option.isSome_some]
+          by_cases h2 : (alookup rest addr).isSome = true
+          · simp [h2]
+          · simp [h2] at hacc
+        · simp [haddr]
+    · simp only [hacc, Bool.false_eq_true, if_false, alookup]
+      by_cases haddr : addr = a
+      · subst haddr
+        have hnone : alookup (migrateFieldsGo cls nonce rest recs) addr = none := by
+          cases e : alookup (migrateFieldsGo cls nonce rest recs) addr with
+          | none => rfl
+          | some _ => simp [e] at hacc
+        rw [ih recs addr] at hnone
+        cases hr : alookup recs addr with
+        | some _ => simp [hr] at hnone
+        | none =>
+          simp only [if_true, Option.isSome_some]
+          cases hf : alookup cls addr with
+          | none => exact absurd hf hhead
+          | some _ => rfl
+      · simp only [haddr, if_false]
+        exact ih recs a
+
+theorem upgradeF_lookup (cls nonce : AList HTerm) (native : StM) (a : Path) :
+    alookup (upgradeF cls nonce native).recs a =
+      (alookup cls a).map (fun c => writeContract c ((alookup nonce a).getD (.felt 0))) := by
+  simp only [upgradeF]
+  rw [migrateFieldsGo_lookup cls nonce cls (fun e he => alookup_ne_none_of_mem e.1 cls ⟨e, he, rfl⟩) [] a]
+  simp only [alookup]
+  cases alookup cls a with
+  | none => simp
+  | some r => simp
+
+/-- every record of a reachable state of `ModelState.lean` sits under a 251-bit address -/
+theorem update_keys251 {s s' : St} {d : Diff} (hs : SWF s) (hd : ValidDiff d)
+    (hk : ∀ p, p.length ≠ 251 → alookup s.recs p = none) (hu : State.update true s d = some s') :
+    ∀ p, p.length ≠ 251 → alookup s'.recs p = none := by
+  intro p hp
+  simp only [State.update, bind, Option.bind, pure] at hu
+  cases h1 : State.deployAll s d.deployed [] with
+  | none => simp [h1] at hu
+  | some o1 =>
+    simp only [h1] at hu
+    cases h2 : State.replaceAll s d.replaced o1 with
+    | none => simp [h2] at hu
+    | some o2 =>
+      simp only [h2] at hu
+      cases h3 : State.nonceAll s d.nonces o2 with
+      | none => simp [h3] at hu
+      | some o3 =>
+        simp only [h3] at hu
+        cases h4 : State.storageAll s d.storage o3 with
+        | none => simp [h4] at hu
+        | some o4 =>
+          simp only [h4, Option.some.injEq] at hu
+          have g1 := deployAll_good (s := s) d.deployed (fun e he => (hd.deployed e he).1) [] o1
+            (by intro e he; simp at he) h1
+          have g2 := replaceAll_good hs d.replaced (fun e he => (hd.replaced e he).1) o1 o2 g1 h2
+          have g3 := nonceAll_good hs d.nonces (fun e he => (hd.nonces e he).1) o2 o3 g2 h3
+          have g4 := storageAll_good hs d.storage hd.storage o3 o4 g3 h4
+          have gt := touched_good g4
+          obtain ⟨tnd, _⟩ := touched_spec o4
+          rw [← hu, State.commitObjs_recs true (State.touched o4) tnd _ p]
+          cases ho : alookup (State.touched o4) p with
+          | some o => exact absurd (gt _ (alookup_mem ho)).1 hp
+          | none => exact hk p hp
+
+open Chain in
+theorem run_keys251 (ds : List Diff) (hd : ∀ d ∈ ds, ValidDiff d) :
+    ∀ (s s' : St) (a : AbsSt), StateOK s a → (∀ p, p.length ≠ 251 → alookup s.recs p = none) →
+      State.run true ds s = some s' → ∀ p, p.length ≠ 251 → alookup s'.recs p = none := by
+  induction ds with
+  | nil => intro s s' a _ hk hr; simp only [State.run, Option.some.injEq] at hr; subst hr; exact hk
+  | cons d rest ih =>
+    intro s s' a hok hk hr
+    simp only [State.run] at hr
+    cases e : State.update true s d with
+    | none => simp [e] at hr
+    | some s1 =>
+      simp only [e, Option.bind] at hr
+      have hdv := hd d (List.mem_cons_self ..)
+      exact ih (fun d hd' => hd d (List.mem_cons_of_mem _ hd')) s1 s' _ (stateOK_update hok hdv e)
+        (update_keys251 hok.swf hdv hk e) hr
+
+open Chain in
+/-- **The upgraded database represents the state of the legacy node**: `ls` = a state of the transcribed legacy
+backend (`LState.LOK`), `s` = the state of the same abstract state on the trie2 side (`StateOK`), `native` = the
+trie2 database (`SimM`): the `Contract` bucket the migrator writes from `ls`'s buckets, together with the tries of
+`native`, represents `s`. -/
+theorem simM_upgradeF {ls : LState.LSt} {dep : Path → Bool} {a : AbsSt} {s : St} {native : StM}
+    (hl : LState.LOK ls dep a) (hok : StateOK s a) (hk : ∀ p, p.length ≠ 251 → alookup s.recs p = none)
+    (hsim : SimM native s) : SimM (upgradeF ls.cls ls.nonce native) s := by
+  -- a record exists on the trie2 side exactly for the deployed addresses
+  have hex : ∀ p, (alookup s.recs p).isSome = dep p := by
+    intro p
+    by_cases hp : p.length = 251
+    · have ag := hok.rel.agree p hp
+      simp only [State.getObj, alookup] at ag
+      cases hd : dep p with
+      | true =>
+        cases hr : alookup s.recs p with
+        | some _ => rfl
+        | none =>
+          exfalso
+          simp only [hr, Option.map, AgreeObj] at ag
+          rcases hl.ne p hd with c | c
+          · exact c ag.1
+          · exact c (spec_root_zero_map _ _ _ ag.2.2)
+      | false =>
+        cases hr : alookup s.recs p with
+        | none => rfl
+        | some r =>
+          exfalso
+          simp only [hr, Option.map, AgreeObj, objMap, List.foldl_nil] at ag
+          obtain ⟨u1, _, u3⟩ := hl.inv.undep p hd
+          rcases hok.recs p r hr with c | c
+          · exact c (ag.1.trans u1)
+          · apply c.2
+            rw [spec_root_congr _ _ _ _ ag.2.2]
+            exact spec_root_zero_map _ _ _ u3
+    · rw [hk p hp]
+      cases hd : dep p with
+      | false => rfl
+      | true => exact absurd (hl.side.deplen p hd) hp
+  refine ⟨hsim.ctrie, hsim.cltrie, ?_, ?_⟩
+  · intro p
+    simp only [upgradeF_lookup, hl.inv.cls p]
+    have h1 := hex p
+    cases hd : dep p with
+    | false =>
+      rw [hd] at h1
+      cases hr : alookup s.recs p with
+      | none => simp
+      | some _ => simp [hr] at h1
+    | true =>
+      rw [hd] at h1
+      cases hr : alookup s.recs p with
+      | none => simp [hr] at h1
+      | some r =>
+        have hp : p.length = 251 := hl.side.deplen p hd
+        have ag := hok.rel.agree p hp
+        simp only [State.getObj, alookup, hr, Option.map, AgreeObj] at ag
+        have hn := hsim.recs p
+        rw [hr] at hn
+        cases e2 : alookup native.recs p with
+        | none => simp [e2] at hn
+        | some rn =>
+          simp only [e2, Option.map, Option.some.injEq] at hn
+          simp only [if_true, Option.map, hl.inv.nonce p hd, Option.getD, writeContract, Option.some.injEq]
+          rw [hn]
+          simp only [Rec.mk.injEq]
+          rw [hn] at ag
+          exact ⟨ag.1, ag.2.1, rfl⟩
+  · intro p hp
+    simp only [upgradeF_lookup, hl.inv.cls p] at hp
+    apply hsim.orphan
+    apply (recs_none_iff hsim p).mp
+    have h1 := hex p
+    cases hd : dep p with
+    | true => simp [hd] at hp
+    | false =>
+      rw [hd] at h1
+      cases hr : alookup s.recs p with
+      | none => rfl
+      | some _ => simp [hr] at h1
+
+theorem upgradeF_rootless (cls nonce : AList HTerm) (native : StM) (a : Path) (r : RecM)
+    (h : alookup (upgradeF cls nonce native).recs a = some r) : r.sroot = .felt 0 := by
+  rw [upgradeF_lookup] at h
+  cases e : alookup cls a with
+  | none => simp [e] at h
+  | some c =>
+    simp only [e, Option.map, Option.some.injEq] at h
+    rw [← h]; rfl
+
+open Chain in
+/-- legacy database (transcribed backend) → migrator → continuation on the trie2 backend -/
+theorem upgradeF_run_spec (pre014 : Bool) (ds1 ds2 : List Diff)
+    (hd1 : ∀ d ∈ ds1, ValidDiff d) (hd2 : ∀ d ∈ ds2, ValidDiff d)
+    (purge : Bool) (hk : purge = true ∨ NoSystemContractEmptied AbsSt.empty ds1)
+    (ls : LState.LSt) (native sm' : StM)
+    (hl : LState.run purge ds1 LState.LSt.empty = some ls)
+    (hn : StateM.run true ds1 StM.empty = some native)
+    (h : StateM.run true ds2 (upgradeF ls.cls ls.nonce native) = some sm') :
+    StateM.commitment pre014 sm' = absCommitment pre014 (absState (ds1 ++ ds2)) ∧ ZeroOrExact sm' := by
+  obtain ⟨dep, hlok⟩ := LState.run_ok purge ds1 hd1 _ ls _ _ LState.lok_empty hk hl
+  obtain ⟨s1, hs1, hsim1, hok1, _⟩ :=
+    run_inv (fun _ => True) (fun _ _ _ _ _ => trivial) ds1 hd1 _ native _ _
+      stateOK_empty simM_empty trivial hn
+  have hkeys := run_keys251 ds1 hd1 _ s1 _ stateOK_empty
+    (by intro p _; simp [St.empty, alookup]) hs1
+  have hsimU := simM_upgradeF hlok hok1 hkeys hsim1
+  have hz : ZeroOrExact (upgradeF ls.cls ls.nonce native) :=
+    fun a r hr => Or.inl (upgradeF_rootless ls.cls ls.nonce native a r hr)
+  obtain ⟨s', _, hsim', hok', hx⟩ :=
+    run_inv ZeroOrExact (fun hs hsim hd hu hp => update_zeroOrExact hs hsim hd hu hp)
+      ds2 hd2 _ sm' _ _ hok1 hsimU hz h
+  refine ⟨?_, hx⟩
+  rw [commitment_sim hsim', commitment_ok hok']
+  simp only [absState, List.foldl_append]
 
 end StateM
 end Juno.C01
